@@ -61,3 +61,38 @@ func H_C19_let() {
 	}
 	diffSearch(expr, doc, false)
 }
+
+// H_C19_exprefs: an expression reference evaluated by a built-in sees the
+// bindings of the scope it was written in, for every element it is applied to
+// (3 elements, string and number keys, every order of the keys).
+var c19ExprefForms = []string{
+	"let $k = k in max_by(b, &[s, $k][0])",
+	"let $k = k in min_by(b, &[s, $k][0])",
+	"let $k = k in sort_by(b, &[s, $k][0])",
+	"let $k = k in map(&[s, $k], b)",
+	"let $k = k in group_by(b, &[t, $k][0])",
+	"let $k = k in b[*].[max_by(@.c, &[s, $k][0]), $k]",
+	"let $k = k in max_by(b, &(let $j = s in [$j, $k][0]))",
+}
+
+var c19Perms = [][3]int{{0, 1, 2}, {0, 2, 1}, {1, 0, 2}, {1, 2, 0}, {2, 0, 1}, {2, 1, 0}}
+
+func H_C19_exprefs() {
+	f := vrtChoose("form", len(c19ExprefForms))
+	perm := c19Perms[vrtChoose("perm", len(c19Perms))]
+	numeric := vrtBool("numeric")
+	elems := make([]any, 3)
+	for i := range elems {
+		var key any
+		if numeric {
+			key = int64(perm[i] + 1)
+		} else {
+			key = string(rune('x' + perm[i]))
+		}
+		elems[i] = map[string]any{"s": key, "t": string(rune('p' + perm[i])), "c": []any{map[string]any{"s": key}, map[string]any{"s": key}}}
+	}
+	doc := map[string]any{"k": "kk", "b": elems}
+	expr := c19ExprefForms[f]
+	vrtNote("template:" + expr)
+	diffSearch(expr, doc, false)
+}
